@@ -33,7 +33,7 @@ def attrNames (attrs : Json) : List String :=
 
 def okT (dt : DType) (r : Res (Tensor Int)) : Outcome :=
   match r with
-  | .ok t => { status := "ok", outs := [some (DT.mk dt t none)] }
+  | .ok t => { status := "ok", outs := [some (DT.mk dt (if isInt dt then ⟨t.shape, t.data.map (wrap dt)⟩ else t) none)] }
   | .error e => .ofErr e
 
 /-- spec outcome of a reshape-like operator: same data, prescribed shape, or refusal -/
